@@ -28,6 +28,7 @@ PARTITIONS4 = [p for p in itertools.product(range(4), repeat=4) if all(p[i] <= m
 def bounds(tier):
     return dict(value_histories="k=%d values, every equality pattern, secrets of %s symbolic characters, enclosing text combinations from %r" % (
                     3 if tier == "quick" else 4, "2 (1 when all three differ)" if tier == "quick" else "2 and 3", ENC),
+                earlier_secrets="the 2- and 3-value histories also after N earlier distinct secrets in the same lookup, N in %s" % ("{9, 10, 99}" if tier == "quick" else "{1, 9, 10, 11, 99, 100, 109, 999, 1000}"),
                 line_histories="pairs of generated line forms sharing one lookup (equal / different secrets), and every base form repeated on one line with two different secrets",
                 juniper="$9$ encodings of one or two symbolic plaintexts (length 1..%d) under symbolic salt characters vs the clear text, all orders" % (1 if tier == "quick" else 3))
 
@@ -47,6 +48,11 @@ def items(tier, seed):
                 elif tier == "thorough" and n == 3 and max(part) >= 1:
                     n = 2
                 out.append(Item("C08", "value_history", dict(part=list(part), enc=list(e), n=n), budget_s=400 if tier == "quick" else 2400, obligation="H1-value-histories"))
+    # the same after an earlier part of the run in which N other secrets were seen (pseudonym numbering / rendering at larger counters)
+    for prior in ((9, 10, 99) if tier == "quick" else (1, 9, 10, 11, 99, 100, 109, 999, 1000)):
+        for part in ([0, 1], [0, 1, 0]):
+            out.append(Item("C08", "value_history", dict(part=list(part), enc=[0] * len(part), n=2 if len(part) == 2 else 1, prior=prior), budget_s=400 if tier == "quick" else 2400,
+                            obligation="H1b-value-histories-after-N-earlier-secrets"))
     # shaped secrets: hash-like values with symbolic bodies ($9$ values that do not decode included)
     for prefix, ns in (("$9$", (2, 4) if tier == "quick" else (2, 4, 5)), ("$1$a$", (2,)), ("$6$", (2,))):
         for part in ([0, 1], [0, 0], [0, 1, 0]):
@@ -132,6 +138,8 @@ def value_history(item, res):
                     if plains[i] is not None and plains[j] is not None and len(plains[i].cs) == len(plains[j].cs):
                         ex_.assume(z3.Not(plains[i].eq_expr(plains[j])) if plains[i].cs else False)
         lookup = models.SymDict()
+        for k in range(item.params.get("prior", 0)):
+            F.sir._anonymize_value(PRIOR_FMT % k, lookup, reserved, "S")
         cores = []
         raws = []
         for i, b in enumerate(part):
@@ -154,12 +162,17 @@ def value_history(item, res):
         return ("ok", blocks, raws, cores)
     paths = ex.explore(h)
     harness.add_stats(res, ex)
+    res["_prior"] = item.params.get("prior", 0)
     _report_history(res, paths, "value", lambda m, raws: ["".join(chr(c) if isinstance(c, int) else chr(ev(m, c)) for c in raw) for raw in raws], part)
+
+
+PRIOR_FMT = "earlierSecret%d"     # the N earlier secrets of the run (longer than any symbolic secret, so never equal to one)
 
 
 def _report_history(res, paths, mode, mk_inputs, part):
     from .. import replayers
     P = plain()
+    prior = res.pop("_prior", 0)
     seen = set()
     nval = 0
     for p in paths:
@@ -177,12 +190,12 @@ def _report_history(res, paths, mode, mk_inputs, part):
             if tag in seen:
                 continue
             seen.add(tag)
-            rr = replayers.secret_history(P, dict(mode=mode, inputs=inputs, part=part, extract=res.get("_extract")))
+            rr = replayers.secret_history(P, dict(mode=mode, inputs=inputs, part=part, extract=res.get("_extract"), prior=prior))
             res["violations"].append(dict(description="pseudonyms %s: %s" % (kind, rr.get("detail")), witness=dict(inputs=inputs, part=part, outputs=rr.get("observed")), tags=[tag, kind],
-                                          replay=dict(replayer="secret_history", args=dict(mode=mode, inputs=inputs, part=part, extract=res.get("_extract")))))
+                                          replay=dict(replayer="secret_history", args=dict(mode=mode, inputs=inputs, part=part, extract=res.get("_extract"), prior=prior))))
             res["status"] = "violated"
         elif nval < 12:
-            rr = replayers.secret_history(P, dict(mode=mode, inputs=inputs, part=part, extract=res.get("_extract")))
+            rr = replayers.secret_history(P, dict(mode=mode, inputs=inputs, part=part, extract=res.get("_extract"), prior=prior))
             if rr["violated"]:
                 raise core.EngineError("concolic mismatch: plain code violates on %r (%s) but the symbolic path does not" % (inputs, rr["detail"]))
             nval += 1
